@@ -252,7 +252,46 @@ fn random_script(rng: &mut Rng) -> Vec<(Vec<usize>, u8, u8, u8, u8)> {
 ///  style: `n` photo-like | `e` hardly any AC coefficient (end-of-band runs beyond 32767 in large images) | `q` dense blocks of multiples of 4 (long correction-bit runs) | `z` mostly empty blocks (long end-of-band runs)
 ///  resets: number of blocks before which the original encoder ended an end-of-band run early
 fn pcase(w: &[&str]) -> Option<String> {
-    let [seed, bw, bh, script, ri, tables, style, resets, pad, feed] = w else { return None };
+    let [.., pad, feed] = w else { return None };
+    let (spec, rng) = pspec(w)?;
+    finish(spec, rng, pad, "-", feed)
+}
+
+/// `hjbrd <hseed> <the ten words of pjpeg>`: the same transcode with seeded structural damage to the
+/// reconstruction data (`synth::hostile`). Anything but a panic or a hang is fine.
+/// Answer: `ok <len> <damage>` | `status <s> <damage>` | `err <class> <damage>` | `panic…`
+fn hcase(w: &[&str]) -> Option<String> {
+    let [hseed, rest @ ..] = w else { return None };
+    let hseed: u64 = hseed.parse().ok()?;
+    let [.., pad, feed] = rest else { return None };
+    let (mut spec, mut rng) = pspec(rest)?;
+    let needs = write_jpeg_ex(&spec).pad_needs;
+    if *pad == "n" {
+        spec.padding = Some(needs.iter().flat_map(|&k| (0..k).map(|_| (rng.next() >> 17 & 1) as u8).collect::<Vec<_>>()).collect());
+    }
+    let mut fields = JbrdFields::from_spec(&spec);
+    let damage = hostile(&mut fields, hseed).join("+");
+    let container = write_container_with(&spec, &fields.serialize(), None, None);
+    if *feed == "emit" {
+        return Some(format!("emit {} -", hex(&container)));
+    }
+    let image = match open(&container, feed) {
+        Ok(i) => i,
+        Err(e) => return Some(format!("{e} {damage}")),
+    };
+    let status = image.jpeg_reconstruction_status();
+    if status != JpegReconstructionStatus::Available {
+        return Some(format!("status {:?} {damage}", status));
+    }
+    let mut out = Vec::new();
+    match image.reconstruct_jpeg(&mut out) {
+        Ok(()) => Some(format!("ok {} {damage}", out.len())),
+        Err(e) => Some(format!("err reconstruct-{} {damage}", err_class(&*e))),
+    }
+}
+
+fn pspec(w: &[&str]) -> Option<(JpegSpec, Rng)> {
+    let [seed, bw, bh, script, ri, tables, style, resets, _pad, _feed] = w else { return None };
     let seed: u64 = seed.parse().ok()?;
     let (bw, bh): (usize, usize) = (bw.parse().ok()?, bh.parse().ok()?);
     if bw == 0 || bh == 0 || bw > 256 || bh > 256 {
@@ -358,7 +397,7 @@ fn pcase(w: &[&str]) -> Option<String> {
         dht_split: *tables == "cs",
         forced_resets,
     };
-    finish(spec, rng, pad, "-", feed)
+    Some((spec, rng))
 }
 
 fn main() {
@@ -369,6 +408,17 @@ fn main() {
             match catch(move || {
                 let r: Vec<&str> = rest.iter().map(|s| s.as_str()).collect();
                 case(&r)
+            }) {
+                Ok(Some(s)) => s,
+                Ok(None) => "bad-op".into(),
+                Err(p) => p,
+            }
+        }
+        ["hjbrd", rest @ ..] => {
+            let rest: Vec<String> = rest.iter().map(|s| s.to_string()).collect();
+            match catch(move || {
+                let r: Vec<&str> = rest.iter().map(|s| s.as_str()).collect();
+                hcase(&r)
             }) {
                 Ok(Some(s)) => s,
                 Ok(None) => "bad-op".into(),
